@@ -1,9 +1,18 @@
 package props
 
 import (
+	"bytes"
+	"context"
 	"encoding/json"
+	"fmt"
 	"io"
+	"net/http"
+	"net/http/httptest"
+	"sync"
 	"time"
+
+	connect "github.com/bufbuild/connect-go"
+	"github.com/bufbuild/connect-go/verifharness/internal/h"
 )
 
 func jsonUnmarshal(b []byte, v any) error { return json.Unmarshal(b, v) }
@@ -11,3 +20,66 @@ func jsonUnmarshal(b []byte, v any) error { return json.Unmarshal(b, v) }
 func ioEOF() error { return io.EOF }
 
 type timeDuration = time.Duration
+
+// decompressorSharing: one handler with a tracked pooled decompressor and a read
+// limit; first the given trigger requests (corrupt / oversize compressed
+// messages), then goroutines x perG valid compressed calls at the same time.
+// Returns the tracker's findings and the number of calls whose answer was not
+// the echo of their own request.
+func decompressorSharing(triggers [][]byte, goroutines, perG int) (problems []string, wrong int, firstWrong string) {
+	return decompressorSharingAlgo("tagA", triggers, goroutines, perG)
+}
+
+// decompressorSharingAlgo: algo is "tagA" or "rle" (run-length pairs: a small wire
+// size can inflate beyond the read limit).
+func decompressorSharingAlgo(algo string, triggers [][]byte, goroutines, perG int) (problems []string, wrong int, firstWrong string) {
+	tr := &h.Tracker{}
+	tracked := h.WithTrackedTag("tagA", tr)
+	if algo == "rle" {
+		tracked = h.WithTrackedRLE(tr)
+	}
+	handler := connect.NewUnaryHandler("/verif.Svc/M", func(_ context.Context, req *connect.Request[h.Raw]) (*connect.Response[h.Raw], error) {
+		return connect.NewResponse(&h.Raw{B: append([]byte("echo:"), req.Msg.B...)}), nil
+	}, connect.WithCodec(h.ToyCodec{}), tracked, connect.WithReadMaxBytes(256), connect.WithCompressMinBytes(1<<20))
+	post := func(body []byte) (int, []byte) {
+		req := httptest.NewRequest(http.MethodPost, "/verif.Svc/M", bytes.NewReader(body))
+		req.Header.Set("Content-Type", "application/toy")
+		req.Header.Set("Content-Encoding", algo)
+		rec := httptest.NewRecorder()
+		handler.ServeHTTP(rec, req)
+		return rec.Code, rec.Body.Bytes()
+	}
+	for _, t := range triggers {
+		post(t)
+	}
+	var mu sync.Mutex
+	var wg sync.WaitGroup
+	for g := 0; g < goroutines; g++ {
+		wg.Add(1)
+		go func(g int) {
+			defer wg.Done()
+			for k := 0; k < perG; k++ {
+				payload := []byte(fmt.Sprintf("call-%d-%d-", g, k))
+				payload = append(payload, bytes.Repeat([]byte{byte('a' + g%26)}, 20+k)...)
+				wire := append([]byte{h.TagByte("tagA")}, payload...)
+				if algo == "rle" {
+					wire = nil
+					for _, b := range payload {
+						wire = append(wire, 1, b)
+					}
+				}
+				code, body := post(wire)
+				if code != 200 || !bytes.Equal(body, append([]byte("echo:"), payload...)) {
+					mu.Lock()
+					wrong++
+					if firstWrong == "" {
+						firstWrong = fmt.Sprintf("call %d/%d: HTTP %d, body %q", g, k, code, body[:minInt(len(body), 60)])
+					}
+					mu.Unlock()
+				}
+			}
+		}(g)
+	}
+	wg.Wait()
+	return tr.Snapshot(), wrong, firstWrong
+}
